@@ -31,7 +31,7 @@ BOUND = {
     "thorough": "types x 5 decorations x 3 contexts; settings subsets <=4 x 9 column variants; text fragments len<=2 x 17 channels x ref/no-ref; L(5,3) x 3 rotations; 4 containers x catalogue",
 }
 # as-built additions to the bound (kept next to BOUND so that the evidence reports them)
-BOUND = {k: v + "; plus: " + '7 legal namespace prefixes (hyphen, dot, digit, non-ASCII) x 4 declaration spellings x 4 use sites; survey and choices sheets in different header-delimiter styles; settings product also with an entities sheet; element names with the 52 range-edge characters of the XML name productions (first / middle / last); 1-3 choice lists x invalid extra-column headers valued in any subset of the lists' for k, v in BOUND.items()}
+BOUND = {k: v + "; plus: " + '7 legal namespace prefixes (hyphen, dot, digit, non-ASCII) x 6 declaration spellings (URIs containing an equals sign) x 4 use sites; survey and choices sheets in different header-delimiter styles; settings product also with an entities sheet; element names with the 52 range-edge characters of the XML name productions (first / middle / last); 1-3 choice lists x invalid extra-column headers valued in any subset of the lists' for k, v in BOUND.items()}
 
 FRAGS = ["<", ">", "&", '"', "'", "]]>", "&amp;", "&#60;", "&lt;", "<!--", "-->", "<![CDATA[",
          '<output value="x"/>', "</label>", "{", "}", "$", "a", "é", "\U0001F600", "שלום",
@@ -141,7 +141,8 @@ NS_SITES = ["bind::{p}:u", "instance::{p}:u", "body::{p}:u", "settings.attribute
 def gen_nsprefix(tier):
     """legal namespace prefixes beyond [a-z]+ in the namespaces setting, declared in three spellings, used at every custom-attribute site"""
     for pfx in NS_PREFIXES:
-        for di, decl in enumerate(('{p}="http://e.x/ns"', "{p}=http://e.x/ns", 'yy="http://y.y" {p}="http://e.x/ns"', "{p}='http://e.x/ns' yy=http://y.y")):
+        for di, decl in enumerate(('{p}="http://e.x/ns"', "{p}=http://e.x/ns", 'yy="http://y.y" {p}="http://e.x/ns"', "{p}='http://e.x/ns' yy=http://y.y",
+                                   '{p}="http://e.x/ns?a=b&c=d"', "yy=http://y.y/?q=1 {p}=http://e.x/ns#f=1")):
             for site in NS_SITES:
                 for ent in (False, True):
                     row = {"type": "text", "name": "q", "label": "Q"}
